@@ -159,6 +159,8 @@ def run(ctx):
 
     def tie(name, detail):
         nonlocal ndis
+        if cc.NO_MODEL in detail:
+            return                                 # the model did not build: reported once by run_model
         ndis += 1
         if ndis <= 4:
             ctx.tie_broken(name, detail)
@@ -330,11 +332,11 @@ def run(ctx):
     base = len(msel)
     for j, (i, text) in enumerate(armor_expect):
         if mod2[base + j] != cc.hx(text):
-            tie("armor of the zlib build's payload vs model", "case %s...: model armor differs from the text written by libsc" % ecases[i]["line"][:60])
+            tie("armor of the zlib build's payload vs model", "case %s...: model armor %s... differs from the text written by libsc" % (ecases[i]["line"][:60], mod2[base + j][:24]))
     base += len(armor_lines)
     for j, (n, sh) in enumerate(vtkcb_expect):
         if mod2[base + j] != sh:
-            tie("sc_vtk_write_compressed vs model", "%d bytes: the model's stream for the same compressed blocks differs from libsc's" % n)
+            tie("sc_vtk_write_compressed vs model", "%d bytes: the model's stream %s... for the same compressed blocks differs from libsc's" % (n, mod2[base + j][:24]))
     # ---- T1: translator validation and the static functions of the build without zlib ---------------------------------------
     sl = []
     for vv in range(-128, 128):
